@@ -59,3 +59,20 @@ def m_data_ops(ex, c, args, m):
 def m_new_boxed(ex, c, args, m): return boxed(Struct({}, 'SubstMethodImpl'))
 
 M.consts[r'(^|::)SLOT_TABLE$'] = lambda ex, body: Opaque(('static', 'SLOT_TABLE'))
+
+# payload children (bare_language_child!): one macro-generated impl per primitive type shares a single MIR name; modelled directly for u32
+@M.add(r'^<u32 as (slotted_egraphs::|lang::)?LanguageChildren>::(\w+)$', front=True, first=True)
+def m_u32_child(ex, c, args, m):
+    op = m.group(2)
+    if op == 'weak_shape_impl': return Unit()
+    if op.endswith('_iter') or op.endswith('_iter_mut'): return It([])
+    if op == 'to_syntax':
+        v = dd(args[0]); return VecVal([Enum(ex.session.enums['SyntaxElem::String'], Struct({0: PyStr(str(conc(v)))}), 'SyntaxElem')])
+    if op == 'from_syntax':
+        sl = args[0]
+        if len(sl) != 1: return none()
+        e = dd(sl.lst[sl.start])
+        if e.disc != ex.session.enums['SyntaxElem::String']: return none()
+        t = str(dd(e.payload.f[0]))
+        return some(z3.BitVecVal(int(t), 32)) if re.fullmatch(r'\+?\d+', t) and int(t) < 2**32 else none()
+    return NotImplemented
